@@ -519,7 +519,7 @@ func ReplayC19File(path string, quiet bool) int {
 	}
 	json.Unmarshal(b, &probe)
 	if probe.Build == "special-C19-race" {
-		cmd := exec.Command("/verif/bin/archesim_race", "special", "c19race", "-seed", fmt.Sprint(probe.Seed), "-runs", fmt.Sprint(probe.RaceRuns))
+		cmd := exec.Command(filepath.Join(filepath.Dir(selfBin()), "archesim_race"), "special", "c19race", "-seed", fmt.Sprint(probe.Seed), "-runs", fmt.Sprint(probe.RaceRuns))
 		cmd.Env = append(os.Environ(), "GOMAXPROCS=8", "GORACE=halt_on_error=0 exitcode=0")
 		var stderr strings.Builder
 		cmd.Stderr = &stderr
